@@ -13,7 +13,9 @@ CLAIMED = {
         text='Lean 4 theorems over the implicit-resolver table regenerated from the live Loader '
              'instance: for strings of every length the table resolves to bool/float exactly on the '
              'YAML 1.2 languages (reflective regex decision procedure proved sound once, evaluated by '
-             'the kernel with decide +kernel), resolved scalars construct, other tags are PyYAML\'s. '
+             'the kernel with decide +kernel), resolved scalars construct, other tags are PyYAML\'s; the '
+             'statements are also given in terms of the denotational language of the core-schema '
+             'expressions (Lang), the derivative matcher being proved to decide it (rmatch_iff_lang). '
              'Tie: the table is re-extracted from /repo on every run and the model resolve is '
              'compared with Loader.resolve on all strings up to a length bound plus edits and random '
              'strings; end-to-end loads checked against an independent YAML 1.2 oracle.',
@@ -59,13 +61,16 @@ CLAIMED['C15'] = dict(
     text='Lean 4 theorems on the model of the four structural transforms and the key renamers: '
          'missing attribute or wrong kind leaves the node unchanged and raises nothing, duplicate '
          'keys raise SeasoningError exactly in strict mode, dash/underscore renaming is inverse on '
-         'keys free of the target character. The inverse-pair and documented-shape laws are checked '
-         'by the correspondence harness against an independent plain-data oracle on generated nodes '
-         '(their Lean proofs are listed as open in DESIGN.md). Tie: every transform and transform '
+         'keys free of the target character; inverse pairs: a well-formed item that seq_attribute_to_map '
+         'does not reduce to the short form comes back from map_attribute_to_seq as the same mapping '
+         'with the key attribute moved to the end, a short-form item (value attribute the sole '
+         'remaining key, not holding a mapping) as the two-attribute mapping, likewise for the index '
+         'pair, lifted item by item and in order to the whole attribute value. Documented shapes and '
+         'round trips are also compared as data against an independent oracle on generated nodes. Tie: every transform and transform '
          'pair on generated nodes (well-formed, wrong kind, mixed, duplicate keys, missing value '
          'attribute) on the real yatiml.Node and on the model, nodes compared.',
-    note=NOTE_COMMON + 'the inverse laws are validated by exploration, not yet by a theorem.',
-    technique='Lean 4 proofs (applicability, duplicates, renaming inverse) + differential '
+    note=NOTE_COMMON + 'marks and tags of regenerated key scalars are part of the model nodes, not of the data equality the property speaks of.',
+    technique='Lean 4 proofs (applicability, duplicates, renaming inverse, inverse pairs) + differential '
               'correspondence with a plain-data oracle for shapes and inverse pairs',
     ref='DESIGN.md 7 (C15)')
 
@@ -80,12 +85,18 @@ CLAIMED['C03'] = dict(
          'non-abstract class reachable from the expected class through registered direct-subclass '
          'edges), abstract / unregistered classes never recognised, a non-singleton result makes '
          'processing fail, an explicit tag picks among candidates and a conflicting or unknown tag '
-         'fails. Order independence is checked metamorphically on the real code (permuted '
-         'registration order and Union members). ' + LOADER_TIE,
-    note=NOTE_COMMON + 'order independence (permutation of Union members / registration) is '
-         'validated by exploration on the real code, not by a theorem.',
-    technique='Lean 4 proof (induction on fuel over the recogniser model) + differential '
-              'correspondence + permutation metamorphic runs',
+         'fails. Order independence: every recognised type list is duplicate-free '
+         '(recognizeReq_nodup); two class tables holding the same classes (distinct names) in another '
+         'order recognise the same set of types for every node and type and are fatal together '
+         '(C03_registration_order, relational induction over the recogniser, subclass fold by induction '
+         'over List.Perm); lifted to the whole load: same value, constructor calls, savorize trace and '
+         'processed tree, or failure in both (C03_load_registration_order); the same set for a '
+         'permutation of the members of a Union (C03_union_member_order). Also checked '
+         'metamorphically on the real code. ' + LOADER_TIE,
+    note=NOTE_COMMON + 'permutations of Unions nested inside other types are lifted to load by the '
+         'exploration, not by a theorem.',
+    technique='Lean 4 proof (induction on fuel over the recogniser model; relational proof over '
+              'permutations) + differential correspondence + permutation metamorphic runs',
     ref='DESIGN.md 7 (C03)')
 CLAIMED['C08'] = dict(
     text='Lean 4 theorems on the loader model, in which every Python operation that can raise is an '
@@ -102,27 +113,38 @@ CLAIMED['C08'] = dict(
     ref='DESIGN.md 7 (C08)')
 
 CLAIMED['C01'] = dict(
-    text='Lean 4 theorems on the loader model: recognition soundness (the unique recognised type is '
-         'admitted by the declared type, by induction on fuel, for arbitrary tags and custom '
-         'recognisers), the processed root carries exactly that type\'s tag or is stripped to core tags '
-         'for Any, a node with a built-in scalar tag constructs a value of exactly that kind, a class '
-         'node constructs only after the missing/extraneous/type checks passed (their meaning spelled '
-         'out), Any/untyped/extra positions construct to plain data without constructor calls '
-         '(induction over the stripped tree), the empty document is a null. The deep statement '
-         '(conformance of every nested value) is validated on the real code by an independent '
-         'conformance oracle on every generated load; its Lean proof covers the links of the chain '
-         'listed above. ' + LOADER_TIE,
-    note=NOTE_COMMON + 'deep conformance is composed from the proved per-node links by the '
-         'exploration oracle, not yet by one inductive theorem (DESIGN.md, open proof obligations).',
-    technique='Lean 4 proofs (recognition soundness, tagging, exact-kind construction, plain-data '
-              'induction) + differential correspondence + independent conformance oracle',
+    text='Lean 4 theorems on the loader model, for every class model (custom recognisers and savorizers '
+         'included), node, type and fuel: C01_loaded_value_conforms - if a load succeeds the value is '
+         'of the declared type (built-ins of exactly their kind, lists and dicts element-wise with '
+         'keys, a Union by one of its members, a class by an instance of it or of a registered class '
+         'derived from it), proved through an invariant on the processed tree (processNode_tagged, '
+         'induction over process) and construct_conforms (induction over construction); '
+         'C01_every_constructor_call_typed - every user-constructor call a load makes, at any depth, '
+         'whether or not the load succeeds afterwards, passed the attribute check (required present, '
+         'each present parameter of its declared type, unknown keys only into _yatiml_extra); '
+         'recognition soundness, root tag, exact scalar kinds, plain data below Any, the empty '
+         'document. Hypotheses of the conformance theorem: core resolver table (proved of the '
+         'regenerated table), dict key types str or a class, and EnvWF (no class called Path; the '
+         'class table agrees with Python\'s MRO; parameter names distinct) - EnvWF is evaluated on the '
+         'real classes of every generated model by the check. On the real code an independent deep '
+         'conformance oracle judges every loaded value. ' + LOADER_TIE,
+    note=NOTE_COMMON + 'EnvWF is a fact about CPython\'s MRO and introspection, checked per generated '
+         'model rather than proved.',
+    technique='Lean 4 proofs (invariant through processing, induction over construction, recognition '
+              'soundness) + differential correspondence + independent conformance oracle',
     ref='DESIGN.md 7 (C01)')
 CLAIMED['C04'] = dict(
     text='Lean 4 theorems: the regenerated resolver table yields core tags only (decide), strip_tags '
          'leaves core tags only, and a tree with core tags only constructs to plain data with an empty '
          'constructor-call log or fails (induction on fuel through flatten_mapping, sequences and '
          'mappings) - hence Any / untyped / extra positions; !!python/* scalars end in a YAML '
-         'constructor error; constructor calls are only made for registered classes named by a tag. '
+         'constructor error; constructor calls are only made for registered classes named by a tag; '
+         'and C04_calls_within_reach: every user constructor a load runs, at any depth and whether or '
+         'not the load then fails, belongs to a class reachable from the declared type (named by the '
+         'type, a registered class derived from it, or reachable from the parameter types of such a '
+         'class) - proved by extending the processed-tree invariant into class nodes and following '
+         'construct_mapping (hypotheses: core table, EnvWF, argument names = parameters, dict keys '
+         'str or a class; the last three evaluated on every generated model). '
          'On the real code: injected tags (registered, unknown, !!python/object[/apply|/new], '
          '!!python/name, !!python/module, core tags) never cause a constructor run for an object that '
          'is not in the result at an admitting position, never import a canary module or call '
@@ -140,7 +162,9 @@ CLAIMED['C10'] = dict(
          'RecognitionError; savorizing happens on the recognised type before attribute processing and '
          'construction; recognising one class depends only on that class\'s own definition. The real '
          'hook log (which hook, on which class, order) is compared with the chain computed from the '
-         'class model and with the model trace. Dump-side sweetening is covered by the C06 harness. '
+         'class model and with the model trace. The same chain theorem is proved for '
+         '_yatiml_sweeten of plain classes on the dump side (C10_sweeten_chain); dump-side hook logs are '
+         'compared too. '
          + LOADER_TIE,
     note=NOTE_COMMON + 'enum and string-like representers look _yatiml_sweeten up with hasattr '
          '(recorded as a known finding when exhibited).',
@@ -199,7 +223,11 @@ CLAIMED['C17'] = dict(
          'positions and key names the message cites): every construction-phase and processing error '
          'raised through errAt cites exactly one position; a mismatching scalar cites the node; a '
          'missing required key is named with the mapping position; an unknown key is named with the '
-         'key position; a wrongly typed attribute cites the value position and names the attribute. '
+         'key position; a wrongly typed attribute cites the value position and names the attribute; '
+         'and, by induction over the recogniser (custom recognisers included): whenever recognition '
+         'does not single out exactly one type the error has at least one leaf and every leaf cites a '
+         'position (C17_recognition_failure_positioned; F15 and F18 were the two counterexamples in the '
+         'pinned tree). '
          'On the real code: hierarchy-free models, block-style documents, single corruptions - the '
          'parsed message must cite the line of the corrupted node, its key or the enclosing mapping '
          'and name the key; every RecognitionError must cite a position inside the document. '
